@@ -615,6 +615,30 @@ def _hoist_test_calls(fn, refs: list[ast.AST], parents) -> bool:
             blk.insert(i, asg)
             changed = True
             continue
+        # a call buried in an expression of a simple statement (`x[helper(a)] = v`, `f(helper(a))`, `with cm(helper(a)):`): evaluate it into a temporary just before
+        # the statement (the statement evaluates it exactly once; an operand to its left that it could observe changing is not something a key / flag helper does)
+        st_node, st_par = node, parents.get(id(node))
+        under_lazy = False
+        while st_par is not None and not isinstance(st_par, ast.stmt):
+            if isinstance(st_par, (ast.Lambda, ast.ListComp, ast.SetComp, ast.DictComp, ast.GeneratorExp, ast.IfExp, ast.BoolOp)):
+                under_lazy = True
+            st_node, st_par = st_par, parents.get(id(st_par))
+        direct = isinstance(st_par, (ast.Expr, ast.Assign, ast.AnnAssign, ast.AugAssign, ast.Return)) and getattr(st_par, 'value', None) is node
+        if (not under_lazy and not direct and st_par is not None and not isinstance(holder, (ast.While,)) and not (isinstance(holder, ast.BoolOp) and isinstance(parents.get(id(holder)), ast.While))
+                and (isinstance(st_par, (ast.Expr, ast.Assign, ast.AnnAssign, ast.AugAssign, ast.Return, ast.Raise, ast.Assert))
+                     or (isinstance(st_par, ast.If) and st_node is st_par.test) or (isinstance(st_par, (ast.For, ast.AsyncFor)) and st_node is st_par.iter)
+                     or (isinstance(st_par, (ast.With, ast.AsyncWith)) and any(st_node is it for it in st_par.items)))):
+            blk = _containing_block(st_par, parents)
+            if blk is not None:
+                _COUNTER[0] += 1
+                name = f'__inl_ret_{_COUNTER[0]}'
+                asg = ast.copy_location(ast.Assign(targets=[ast.Name(id=name, ctx=ast.Store())], value=node), st_par)
+                _replace(parents, node, ast.copy_location(ast.Name(id=name, ctx=ast.Load()), node))
+                i = next(k for k, x in enumerate(blk) if x is st_par)
+                blk.insert(i, asg)
+                ast.fix_missing_locations(asg)
+                changed = True
+                continue
         # `while A and [not] [await] helper(args) and B:`  ->  `while True:` + `if not (A): break` + `__r = [await] helper(args)` + `if not __r: break` + `if not (B): break` + body
         whl = holder
         conj_of = None
